@@ -171,7 +171,7 @@ Proof.
   { intros [= <-]. apply hs_stop. rewrite fixn_m1. lia. }
   rewrite idx_in by lia. cbv beta iota delta [bind].
   destruct (nz c (i + 7) =? 0).
-  { intros [= <-]. apply hs_stop. rewrite fixn_fwd by lia. destruct (wc2_n0 c i <=? len c); lia. }
+  { intros [= <-]. apply hs_stop. rewrite fixn_fwd by lia. replace (wc2_n0 c i <=? len c) with true by lia. lia. }
   intros Hw. destruct (wc2_walk_ok c Hb (Z.to_nat (nz c (i + 7))) (wc2_n0 c i)) as [r' [Hw' Hr]].
   rewrite Hw in Hw'. injection Hw' as <-.
   eapply walk_hsafe; eauto. apply fixn_fwd; lia.
